@@ -683,6 +683,13 @@ def _any(it, l):
             l = lam_and(it.a[1], l)
             it = it.a[0]
             continue
+        if it.op == "filter_map" and isinstance(it.a[1], T) and it.a[1].op == "lam":
+            # exists y in filter_map(it, f). l(y)  =  exists x in it. f(x) is Some(y) and l(y)
+            x = fresh("fm")
+            o = apply_lam(it.a[1], [x])
+            l = lam([x], and_(isvar(o, "Option", 1), apply_lam(l, [proj(o, 1, 0, None)])))
+            it = it.a[0]
+            continue
         if it.op == "iter" and it.a[0].op == "collect":
             it = it.a[0].a[0]
             continue
